@@ -60,6 +60,7 @@ def walk(n):
 TYPEMAP = [
     (r'\bSpatialVecP?\b|Vec<2, ?Vec<3', 'SV'),
     (r'\bSymMat33P?\b|SymMat<3', 'SYM'),
+    (r'\b(Unit)?Inertia(P|_)?\b', 'SYM'),     # (C29) Inertia_/UnitInertia_ wrap one SymMat33 (not SpatialInertia/ArticulatedInertia)
     (r'\bMat33P?\b|Mat<3, ?3', 'M33'), (r'\bMat43P?\b|Mat<4, ?3', 'M43'), (r'\bMat34P?\b|Mat<3, ?4', 'M34'),
     (r'\bRotation(P|_)?\b', 'M33'),
     (r'\bVec2P?\b|Vec<2', 'V2'), (r'\bVec3P?\b|Vec<3|\bUnitVec3P?\b|UnitVec<', 'V3'), (r'\bVec4P?\b|Vec<4|\bQuaternion', 'V4'),
@@ -141,13 +142,22 @@ class Tr:
             tq = n.get('typeAsWritten', n['type'])
             t = ctype(tq['qualType'] if isinstance(tq, dict) else n['type']['qualType'])
             args = [self.expr(a, env) for a in n.get('inner', []) if a['kind'] != 'CXXDefaultArgExpr']
+            if t == 'SYM' and len(args) == 6 and re.search(r'\b(Unit)?Inertia(P|_)?\b', tq['qualType'] if isinstance(tq, dict) else n['type']['qualType']):
+                xx, yy, zz, xy, xz, yz = args; args = [xx, xy, yy, xz, yz, zz]    # (C29) Inertia_(xx,yy,zz, xy,xz,yz): moments first, then products
             return self.construct(t, args)
+        if k in ('MemberExpr', 'CXXDependentScopeMemberExpr') and (n.get('name') or n.get('member')) in env and \
+           (not n.get('inner') or strip(n['inner'][0])['kind'] == 'CXXThisExpr'):
+            nm = n.get('name') or n.get('member'); return nm, env[nm]     # (C29) data member of *this declared with members=[(name,type)..]
+        if k == 'UnaryOperator' and n['opcode'] == '*' and strip(n['inner'][0])['kind'] == 'CXXThisExpr' and 'self' in env:
+            return 'self', env['self']        # `*this` of a kernel declared with self=<type> (C27)
         if k == 'UnaryOperator':
             e, t = self.expr(n['inner'][0], env)
             if n['opcode'] == '-': return self.neg(e, t), t
             if n['opcode'] == '+': return e, t
             if n['opcode'] == '!' and t == 'B': return '(negb %s)' % e, 'B'
             raise Untranslatable('unary ' + n['opcode'])
+        if k == 'BinaryOperator' and n['opcode'] == '=':
+            return self.assign(n['inner'][0], n['inner'][1], env)    # element/whole assignment to the self matrix (C27)
         if k == 'BinaryOperator':
             a, at = self.expr(n['inner'][0], env); b, bt = self.expr(n['inner'][1], env)
             return self.binop(n['opcode'], a, at, b, bt)
@@ -159,6 +169,7 @@ class Tr:
         if k == 'CXXOperatorCallExpr':
             op = opname(n); args = n['inner'][1:]
             if len(args) == 1:
+                if op == '*' and strip(args[0])['kind'] == 'CXXThisExpr' and 'self' in env: return 'self', env['self']   # (C29) `*this` in a class template (dependent form)
                 e, t = self.expr(args[0], env)
                 if op == '-': return self.neg(e, t), t
                 if op == '~':
@@ -166,6 +177,7 @@ class Tr:
                     if t in DIM: return e, 'ROW' + t
                     raise Untranslatable('~ on ' + t)
                 raise Untranslatable('unary op ' + op)
+            if op == '=' and len(args) == 2: return self.assign(args[0], args[1], env)    # (C27) self matrix
             a, at = self.expr(args[0], env)
             if op == '[]' or op == '()':
                 if len(args) == 2:
@@ -193,6 +205,12 @@ class Tr:
                     return self.call(mem, args)
                 obj, ot = self.expr(inner0, env)
                 return self.member(mem, obj, ot, args)
+            if callee['kind'] == 'DependentScopeDeclRefExpr' and not args and getattr(self, 'srctext', None):
+                # (C29) `NTraits<P>::getX()`: clang's JSON has no name for this node; read the identifier at its end token from the source
+                e = callee.get('range', {}).get('end', {}); e = e.get('spellingLoc', e)
+                nm = self.srctext[e.get('offset', 0): e.get('offset', 0) + e.get('tokLen', 0)]
+                if re.fullmatch(r'[A-Za-z_]\w*', nm) and nm in self.consts: return self.consts[nm], 'S'
+                raise Untranslatable('dependent-scope call %r' % nm)
             raise Untranslatable('callee ' + callee['kind'])
         raise Untranslatable('node ' + k)
     def call(self, nm, args):
@@ -214,6 +232,9 @@ class Tr:
             a, b = args[0][0], args[1][0]
             if nm == 'min': return '(if nleb K %s %s then %s else %s)' % (a, b, a, b), 'S'
             return '(if nleb K %s %s then %s else %s)' % (a, b, b, a), 'S'
+        if nm == 'operator=' and len(args) == 1 and getattr(self, '_sink', None) and args[0][1] == 'M33':   # Mat33P::operator=(m) on *this (C27)
+            self._sink[0].append('%slet self : %s := %s in' % (self._sink[1], COQTY['M33'], args[0][0])); return 'self', 'M33'
+        if nm in ('asMat33', 'toMat33') and not args and getattr(self, '_selfty', None) == 'M33': return 'self', 'M33'   # (C27)
         key = (nm, len(args))
         if key in self.fns:
             f = self.fns[key]
@@ -223,9 +244,16 @@ class Tr:
         raise Untranslatable('call to %s/%d' % (nm, len(args)))
     def member(self, mem, obj, ot, args):
         if mem == 'normSqr' and ot in DIM: return '(v%d_normSqr K %s)' % (DIM[ot], obj), 'S'
+        if mem == 'isNaN' and ot in ('SYM', 'V3', 'S') and not args: return 'false', 'B'    # (C29) the numeric structures have no NaN
+        if mem in ('diag', 'getDiag') and ot == 'SYM' and not args: return '(fst %s)' % obj, 'V3'     # (C29)
+        if mem == 'getLower' and ot == 'SYM' and not args: return '(snd %s)' % obj, 'V3'              # (C29) (xy,xz,yz)
+        if mem == 'sum' and ot == 'V3' and not args:                                                   # (C29) Vec::sum(): ((0+a)+b)+c
+            return '(nadd K (nadd K (v3_0 %s) (v3_1 %s)) (v3_2 %s))' % (obj, obj, obj), 'S'
+        if mem == 'asSymMat33' and ot == 'SYM' and not args: return obj, ot                            # (C29)
         if mem == 'norm' and ot == 'V3': return '(v3_norm K %s)' % obj, 'S'
         if mem in ('transpose',) and ot == 'M33': return '(m33_T %s)' % obj, 'M33'
         if mem in ('asVec3', 'asVec4') and ot in DIM: return obj, ot
+        if mem in ('asMat33', 'toMat33') and ot == 'M33' and not args: return obj, ot
         raise Untranslatable('member call %s on %s' % (mem, ot))
     def index(self, b, bt, idx, col=False):
         if idx['kind'] != 'IntegerLiteral': raise Untranslatable('non-literal subscript')
@@ -268,6 +296,9 @@ class Tr:
         if at == 'S' and bt == 'S' and op in C:
             f, sw = C[op]; x, y = (b, a) if sw else (a, b)
             return '(%s K %s %s)' % (f, x, y), 'B'
+        if at == 'V3' and bt == 'S' and op in C:      # (C29) Vec >= scalar: true iff every element compares true (Vec.h operator>=)
+            f, sw = C[op]; es = [('(%s K %s (v3_%d %s))' % (f, b, i, a)) if sw else ('(%s K (v3_%d %s) %s)' % (f, i, a, b)) for i in range(3)]
+            return '(andb (andb %s %s) %s)' % tuple(es), 'B'
         if at == 'B' and bt == 'B' and op == '&&': return '(andb %s %s)' % (a, b), 'B'
         if at == 'B' and bt == 'B' and op == '||': return '(orb %s %s)' % (a, b), 'B'
         if op == '*' and at == 'S' and bt in DIM: return '(v%d_scale K %s %s)' % (DIM[bt], a, b), bt
@@ -333,6 +364,20 @@ class Tr:
                 return True
             elif kd in ('NullStmt',):
                 continue
+            elif kd == 'CompoundAssignOperator' and st.get('opcode') in ('+=', '-=') and strip(st['inner'][0])['kind'] == 'DeclRefExpr' \
+                 and strip(st['inner'][0])['referencedDecl']['name'] in env:      # (C29) `I -= e;` on a local value -> rebinding let
+                nm = strip(st['inner'][0])['referencedDecl']['name']; b, bt = self.expr(st['inner'][1], env)
+                e, et = self.binop(st['opcode'][0], nm, env[nm], b, bt)
+                if et != env[nm]: raise Untranslatable('compound assignment type %s vs %s' % (et, env[nm]))
+                lines.append('%slet %s : %s := %s in' % (indent, nm, COQTY[et], e))
+            elif kd == 'CallExpr' and strip(st['inner'][0]).get('member') == 'errChk':   # (C29) Inertia_::errChk(): Debug-only validity assertion (body under #ifndef NDEBUG)
+                continue
+            elif kd in ('BinaryOperator', 'CXXOperatorCallExpr', 'CallExpr') and self.assign_stmt(st, env, lines, indent):   # (C27) R[i][j] = e; R = m;
+                continue
+            elif kd == 'CallExpr' and self.clamp_stmt(st, env, lines, indent):   # clampInPlace(lo, localvar, hi);
+                continue
+            elif kd == 'ParenExpr' and '__assert_fail' in json.dumps(st):        # <cassert> assert(c); (NDEBUG off)
+                continue
             elif kd == 'CallExpr' or kd == 'CXXMemberCallExpr' or kd == 'ExprWithCleanups' or kd == 'CStyleCastExpr':
                 # assertion macros expand to (void)0 or to a conditional throw: ignore `assert`-like statements only
                 txt = json.dumps(st)
@@ -341,9 +386,69 @@ class Tr:
             else:
                 raise Untranslatable('statement ' + kd)
         return False
+    def clamp_stmt(self, st, env, lines, indent):
+        """`clampInPlace(lo, v, hi);` on a scalar local v (Scalar.h: if (v<lo) v=lo; else if (v>hi) v=hi;) -> rebinding let."""
+        callee = strip(st['inner'][0])
+        if callee.get('referencedDecl', {}).get('name') != 'clampInPlace' or len(st['inner']) != 4: return False
+        v = strip(st['inner'][2])
+        if v['kind'] != 'DeclRefExpr' or env.get(v['referencedDecl']['name']) != 'S': return False
+        nm = v['referencedDecl']['name']
+        (lo, lt), (hi, ht) = self.expr(st['inner'][1], env), self.expr(st['inner'][3], env)
+        if lt != 'S' or ht != 'S': return False
+        lines.append('%slet %s : T := (if nltb K %s %s then %s else if nltb K %s %s then %s else %s) in' % (indent, nm, nm, lo, lo, hi, nm, hi, nm))
+        return True
+    # ---- (C27) kernels that mutate `*this` (kernel spec self='M33'): the object is the rebindable Gallina variable `self`,
+    #      `Mat33P& R = *this;` is an alias of it, `R[i][j] = e` / `R = m` / `Mat33P::operator=(m)` rebind it, `return *this` returns it.
+    def assign_stmt(self, st, env, lines, indent):
+        if 'self' not in env: return False
+        kd = st['kind']
+        if kd == 'BinaryOperator' and st.get('opcode') != '=': return False
+        if kd == 'CXXOperatorCallExpr' and opname(st) != '=': return False
+        if kd == 'CallExpr':
+            c = strip(st['inner'][0])
+            if (c.get('member') or c.get('name')) != 'operator=' or c.get('inner'): return False
+        self._sink = (lines, indent)
+        try: self.expr(st, env)
+        finally: self._sink = None
+        return True
+    def is_self(self, n, env):
+        if n['kind'] == 'UnaryOperator' and n.get('opcode') == '*' and strip(n['inner'][0])['kind'] == 'CXXThisExpr': return True
+        if n['kind'] == 'CXXOperatorCallExpr' and opname(n) == '*' and len(n['inner']) == 2 and strip(n['inner'][1])['kind'] == 'CXXThisExpr': return True
+        if n['kind'] == 'DeclRefExpr':     # a non-const reference local initialised with *this
+            nm = n['referencedDecl']['name']; qt = n['referencedDecl'].get('type', {}).get('qualType', '')
+            return env.get(nm) == env.get('self') and qt.rstrip().endswith('&') and 'const' not in qt
+        return False
+    def assign(self, lhs, rhs, env):
+        if not getattr(self, '_sink', None) or env.get('self') != 'M33':
+            raise Untranslatable('assignment outside a statement of a self-mutating kernel')
+        lines, indent = self._sink
+        v, vt = self.expr(rhs, env)          # nested assignments (a = b = e, a = -(b = e)) are emitted first
+        l = strip(lhs); path = []
+        while l['kind'] == 'ParenExpr': l = strip(l['inner'][0])
+        while l['kind'] == 'ArraySubscriptExpr' or (l['kind'] == 'CXXOperatorCallExpr' and opname(l) == '[]'):
+            sub = l['inner'] if l['kind'] == 'ArraySubscriptExpr' else l['inner'][1:]
+            ix = strip(sub[1])
+            if ix['kind'] != 'IntegerLiteral': raise Untranslatable('assignment through a non-literal subscript')
+            path.insert(0, int(ix['value'])); l = strip(sub[0])
+        if not self.is_self(l, env): raise Untranslatable('assignment to something other than the self matrix')
+        alias = l['referencedDecl']['name'] if l['kind'] == 'DeclRefExpr' else None
+        if len(path) == 0 and vt == 'M33': new = v
+        elif len(path) == 2 and vt == 'S' and max(path) <= 2:
+            self._tmp = getattr(self, '_tmp', 0) + 1; tn = 'asg%d' % self._tmp
+            lines.append('%slet %s : T := %s in' % (indent, tn, v)); v = tn
+            names = [['m%d%d' % (i, j) for j in range(3)] for i in range(3)]
+            tup = lambda nn: '(' + ', '.join('(' + ', '.join(r) + ')' for r in nn) + ')'
+            pat = tup(names); names[path[0]][path[1]] = tn
+            new = "(let '%s := self in %s)" % (pat, tup(names))
+        else: raise Untranslatable('assignment shape %s %s' % (path, vt))
+        lines.append('%slet self : %s := %s in' % (indent, COQTY['M33'], new))
+        if alias: lines.append('%slet %s : %s := self in' % (indent, alias, COQTY['M33']))
+        return v, vt
     def fn(self, f):
-        env = dict(f.params); lines = []
-        if not self.stmts(f.body.get('inner', []), env, f, lines): raise Untranslatable('no return')
+        env = dict(f.params); lines = []; self._selfty = env.get('self'); self._sink = None
+        if not self.stmts(f.body.get('inner', []), env, f, lines):
+            if env.get('self') == f.ret: lines.append('  self')       # (C27) void self-mutating kernel: result is the object
+            else: raise Untranslatable('no return')
         ps = ' '.join('(%s : %s)' % (n, COQTY[t]) for n, t in f.params)
         return 'Definition %s {T} (K : NumOps T) %s : %s :=\n%s.\n' % (f.coqname, ps, COQTY[f.ret], '\n'.join(lines))
 
@@ -373,10 +478,12 @@ def find_functions(docs, container, names):
 
 def translate_group(gname, spec):
     docs = clang_ast(spec['tu'], spec['filter'])
+    for f2 in spec.get('more_filters', []): docs += clang_ast(spec['tu'], f2)     # (C29) free functions without a common name substring
     names = set(k['name'] for k in spec['kernels'])
     cands = find_functions(docs, spec['container'], names)
     fns = {}; out = []; failed = []; meta = []
     tr = Tr(fns, spec.get('consts'))
+    if spec.get('consts'): tr.srctext = open(os.path.join(REPO, spec['source'])).read()     # (C29) names of dependent-scope calls are read from the source text
     for k in spec['kernels']:
         name, np_, coq = k['name'], k['nparams'], k['coq']
         nodes = cands.get((name, np_), [])
@@ -386,6 +493,8 @@ def translate_group(gname, spec):
             failed.append((name, 'not found in current source')); continue
         try:
             f = Fn(nodes[0], coq, ret=k.get('ret'), params=k.get('params'))
+            if k.get('self'): f.params = [('self', k['self'])] + f.params     # (C27) member kernel: the object is the first parameter
+            if k.get('members'): f.params = [tuple(x) for x in k['members']] + f.params   # (C29) data members of *this read by the kernel become leading parameters
             txt = tr.fn(f); fns[(name, np_)] = f; out.append(txt)
             loc = nodes[0].get('loc', {})
             meta.append({'name': name, 'coq': coq, 'params': f.params, 'ret': f.ret, 'cxx': k.get('cxx'),
